@@ -288,6 +288,60 @@ func c08Specs(tier string) []*h.SeqSpec {
 			}
 			return vs
 		}})
+		// the session goes away while a chunk is still arriving: by expiry (80 minutes between two bytes) or by eviction (a
+		// POST that overflows the limit arrives between two bytes). A chunk is acknowledged only into a session that exists:
+		// 202 implies that the session answers afterwards and holds the bytes.
+		for _, how := range []string{"expires (80 minutes between the bytes)", "may be evicted (an overflowing POST arrives between the bytes)"} {
+			how := how
+			ops = append(ops, h.Op{Name: "PATCH s1 \"xyz\" while the session " + how, Do: func(w *h.World) []h.Violation {
+				m := sessM(w)
+				s := m.S["s1"]
+				if s == nil || !s.Open {
+					return nil
+				}
+				n := len(s.Bytes)
+				rq := h.Req{Method: "PATCH", Path: s.Path, Query: "state=" + stateToken(n), Body: []byte("xyz"),
+					Header: map[string]string{"Content-Type": "application/octet-stream", "Content-Range": fmt.Sprintf("%d-%d", n, n+2)}}
+				var vs []h.Violation
+				if strings.HasPrefix(how, "expires") {
+					rq.Slow = []time.Duration{80 * time.Minute, time.Minute}
+				} else {
+					rq.Slow = []time.Duration{time.Minute, time.Minute}
+					rq.Mid = func(piece int) {
+						if piece != 1 || m.S["s3"] != nil {
+							return
+						}
+						openSession(w, "s3", repo, "")
+					}
+				}
+				r := w.Do(rq)
+				alive, rep, off, sr := c08Status(w, s)
+				switch {
+				case r.Status == 202 && !alive:
+					vs = append(vs, h.V("chunk-only-into-a-live-session", "chunk-acknowledged-into-a-session-that-is-gone", "the chunk was acknowledged (%s) but the session %s: status %s", r, how, sr))
+				case r.Status == 202:
+					s.Bytes = append(s.Bytes, "xyz"...)
+					if rep != len(s.Bytes) || off != len(s.Bytes) {
+						vs = append(vs, h.V("status-reports-bytes", "status-wrong", "session s1 holds %d bytes per the model, status reports Range end+1=%d, state offset=%d (%s)", len(s.Bytes), rep, off, sr))
+					}
+				case strings.HasPrefix(how, "expires") && alive:
+					// refused and still there: the bytes that were written before the refusal are the implementation's business; observe
+					s.Bytes = s.Bytes[:0]
+					for i := 0; i < rep; i++ {
+						s.Bytes = append(s.Bytes, "xyz"[i%3])
+					}
+				}
+				if strings.HasPrefix(how, "expires") && r.Status == 202 {
+					vs = append(vs, h.V("ceases-to-exist-after-expiry", "chunk-acknowledged-after-expiry", "80 minutes passed between two bytes of the chunk (grace period 1h): the session had expired, the chunk was acknowledged: %s", r))
+				}
+				if !alive {
+					s.Open = false
+				}
+				// the other sessions: idle for up to 81 minutes, possibly evicted by the POST
+				vs = append(vs, reconcile(w, "a-chunk-during-which-time-passed-or-a-POST-arrived", func(o *Sess) bool { return o != s })...)
+				return vs
+			}})
+		}
 		// PUT variants
 		for _, sl := range slots[:2] {
 			for _, last := range []string{"", "z"} {
